@@ -37,6 +37,12 @@ Fixpoint row_eqb (a b : row) : bool :=
   | _, _ => false
   end.
 
+(* what is asked of == on cell values: an equivalence.  It need NOT be identity: 1 == 1.0 == True
+   in Python, yet the three are different values (round 5) *)
+Definition veq_equiv : Prop :=
+  (forall a, veqb a a = true) /\ (forall a b, veqb a b = veqb b a) /\
+  (forall a b c, veqb a b = true -> veqb b c = true -> veqb a c = true).
+
 Fixpoint names_eqb (a b : list Nm) : bool :=
   match a, b with
   | [], [] => true
@@ -131,6 +137,15 @@ Fixpoint spec_distinct (l : list row) : list row :=
   match l with
   | [] => []
   | x :: r => x :: filter (fun y => negb (row_eqb x y)) (spec_distinct r)
+  end.
+
+(* the same said literally: a row is kept iff no EARLIER row of the frame is equal to it - so the
+   survivor of each set of equal rows is its first member itself, not just some member *)
+Fixpoint spec_firsts (earlier : list row) (l : list row) : list row :=
+  match l with
+  | [] => []
+  | x :: r => if existsb (row_eqb x) earlier then spec_firsts (earlier ++ [x]) r
+              else x :: spec_firsts (earlier ++ [x]) r
   end.
 
 (* full batches of k rows, then the remainder; fuel = number of rows *)
@@ -725,6 +740,12 @@ Arguments SFrame {V Nm}. Arguments SFrames {V Nm}. Arguments SVal {V Nm}.
 (* ====================================================================== *)
 Definition zrow := list Z.
 
+(* Cell values of the correspondence are CODED: 4 * n + t stands for the Python value n of type
+   t = 0 int, 1 float (n.0), 2 bool (n = 0, 1).  [zveq] is Python's == on them (numeric value
+   only); observations are compared with Z.eqb, i.e. type-sensitively. *)
+Definition zdec (v : Z) : Z := (v / 4)%Z.
+Definition zveq (a b : Z) : bool := Z.eqb (zdec a) (zdec b).
+
 (* predicates handed to query() by the harness *)
 Inductive pcode :=
 | PTrue | PFalse
@@ -736,9 +757,9 @@ Definition pred_of (p : pcode) (r : zrow) : bool :=
   match p with
   | PTrue => true
   | PFalse => false
-  | PSumMod m k => Z.eqb (Z.modulo (fold_left Z.add r 0%Z) m) k
-  | PHeadLe c => match r with [] => false | x :: _ => Z.leb x c end
-  | PLastEq c => match rev r with [] => false | x :: _ => Z.eqb x c end
+  | PSumMod m k => Z.eqb (Z.modulo (fold_left Z.add (map zdec r) 0%Z) m) k
+  | PHeadLe c => match r with [] => false | x :: _ => Z.leb (zdec x) c end
+  | PLastEq c => match rev r with [] => false | x :: _ => Z.eqb (zdec x) c end
   end.
 
 Definition zstep := stepd Z N.
@@ -747,18 +768,18 @@ Definition zcase := (list (sframe Z N) * list zstep * list zobs)%type.
 
 Definition c03_show (c : zcase) : list zobs :=
   let '(env, prog, _) := c in
-  snd (run_code Z Z.eqb 0%Z N N.eqb (map (eager_of Z N) env) prog).
+  snd (run_code Z zveq 0%Z N N.eqb (map (eager_of Z N) env) prog).
 
 Definition c03_check (c : zcase) : bool :=
   let '(env, prog, seen) := c in
   list_eqb (obs_eqb Z Z.eqb N N.eqb)
-           (snd (run_code Z Z.eqb 0%Z N N.eqb (map (eager_of Z N) env) prog)) seen.
+           (snd (run_code Z zveq 0%Z N N.eqb (map (eager_of Z N) env) prog)) seen.
 
 (* the plain-list run on the same case (second, independent comparison) *)
 Definition c03_check_spec (c : zcase) : bool :=
   let '(env, prog, seen) := c in
-  negb (prog_ok Z Z.eqb 0%Z N N.eqb env prog) ||
+  negb (prog_ok Z zveq 0%Z N N.eqb env prog) ||
   list_eqb (obs_eqb Z Z.eqb N N.eqb)
-           (snd (run_spec Z Z.eqb 0%Z N N.eqb env prog)) seen.
+           (snd (run_spec Z zveq 0%Z N N.eqb env prog)) seen.
 
 Definition c03_check_both (c : zcase) : bool := c03_check c && c03_check_spec c.
